@@ -360,6 +360,29 @@ fn continuity(idx: u64, rng: &mut Rng, mon: &mut Mon) {
             mon.violation(&format!("continuity:j4-j6-unequal-move:entering:signs46={}", signs), "previous J5 just outside the band, requested pose exactly singular: no answer on the previous arm moves J4 and J6 by the same amount", detail("equal-move-entering", &prev, &sols, json!({"smallest_mismatch": if best.is_finite() { json!(best) } else { json!("no answer on the arm") }})));
         }
     }
+    // clause 1d: the requested pose is inside the band without being exactly singular (model J5 = +-1e-7 .. 1.5e-4 rad,
+    // either sign) and the previous joints realise it: the first answer stays on the posture - J1, J2, J3, J5 within
+    // 1e-4 rad and the model-angle sum J4+J6 within 1e-3 rad (inside the band only that combination is determined)
+    {
+        let mut qb = q;
+        place_t5(&rp, &mut qb, 0, rng.sign() * rng.logu(1e-7, 1.5e-4));
+        let pose_b = fr_to_iso(&fk(&rp, &qb));
+        let sols = kin.inverse_continuing(&pose_b, &qb);
+        mon.count("continuity.pose_inside_the_band");
+        let tq = rp.theta(&qb);
+        let ok = match sols.first() {
+            Some(s) => {
+                let ts = rp.theta(s);
+                [0usize, 1, 2, 4].iter().all(|j| circ_dist(s[*j], qb[*j]) <= 1e-4) && circ_dist(ts[3] + ts[5], tq[3] + tq[5]) <= 1e-3
+            }
+            None => false,
+        };
+        if ok {
+            mon.held();
+        } else {
+            mon.violation(&format!("continuity:first-answer-leaves-the-posture:pose-inside-band:signs46={}", signs), "pose inside the wrist band (not exactly singular), previous realises it, but the first continuation answer is on another posture / J4+J6 jumped", detail("first-stays-inside-band", &qb, &sols, json!({})));
+        }
+    }
     // clause 2c: as 2b, but the previous J5 is INSIDE the band without being zero (a trajectory sampled finer than
     // the band): 1e-7 .. 1.5e-4 rad on either side
     {
